@@ -455,6 +455,26 @@ def k_family(params):
                     break
     except Exception as exc:
         V("orbit_family/raises", "OrbitFamily.from_result raised %s: %s" % (type(exc).__name__, str(exc)[:120]))
+    # a second generation from the same seed object with a smaller member limit: the statement holds for it again (limit, counts, step), and
+    # it is the prefix of the first family (the loop is deterministic and must not remember the first run)
+    if n >= 3:
+        mm2 = n - 1
+        opts2 = OrbitContinuationOptions(target=([lo], [hi]), step=(step,), max_members=mm2, max_retries_per_step=5, step_min=1e-8, step_max=1.0, shrink_policy=None,
+                                         extra_params=seed_orbit.correction_options)
+        try:
+            r2 = seed_orbit.generate(opts2)
+            m2 = list(r2.family)
+            p2 = [float(m.initial_state[idx]) for m in m2]
+            if len(m2) > mm2:
+                V("second_run/member_limit", "second generate() from the same seed: %d members, limit %d" % (len(m2), mm2), len(m2), mm2)
+            if int(r2.accepted_count) != len(m2):
+                V("second_run/accepted_count", "second generate(): accepted_count=%s, family has %d members" % (r2.accepted_count, len(m2)), r2.accepted_count, len(m2))
+            if len(p2) == mm2 and np.max(np.abs(np.asarray(p2) - np.asarray(pars[:mm2]))) > 1e-9:
+                V("second_run/members", "second generate() from the same seed (max_members=%d) gives parameters %s, the first run gave %s" % (mm2, p2, pars[:mm2]), p2, pars[:mm2])
+            if any(m.period is None or abs(float(m.period) - periods[i]) > 1e-7 for i, m in enumerate(m2[:len(periods)])):
+                V("second_run/periods", "second generate(): member periods %s differ from the first run's %s" % ([m.period for m in m2], periods[:len(m2)]))
+        except Exception as exc:
+            V("second_run/raises", "second generate() from the same seed raised %s: %s" % (type(exc).__name__, str(exc)[:120]))
     return res(evals=n, nontrivial=n if n >= 2 else 0, viol=list(viol.values()), stats={"family_members_checked": n},
                sample={"tag": tag, "members": n, "parameters": pars, "periods": periods, "max_closure": max(closures) if closures else None})
 
